@@ -1,27 +1,25 @@
 (* C20 -- Legacy HDF5 output holds the selected rows of every product, consistently.
-   Statements only; proofs in Proofs/P_C20.v.  Call tables regenerated from the AST of gac_io.save_gac,
-   gac_io.avhrrGAC_io and Reader.save on every run (Gen_SaveGac). *)
+   Statements only; proofs in Proofs/P_C20.v.  Call tables regenerated on every run by TRACING Reader.save,
+   gac_io.save_gac, slice_channel and the HDF5 writer on tagged inputs (Gen_SaveGac). *)
 From Coq Require Import String ZArith QArith List Bool Arith.
 From PV Require Import M_Io Gen_SaveGac Gen_Consts P_C20.
 Import ListNotations.
 Open Scope Z_scope.
 
 (* all fifteen products (six channels, five angles, lon, lat, quality summary, times) are cut by slice_channel with
-   the same start/end/first-valid/last-valid arguments; the meta data are re-indexed by the same call *)
+   the same start/end/first-valid/last-valid arguments; the meta data are re-indexed by one call with the same selection *)
 Theorem C20_uniform : uniform_ok = true.
 Proof. exact uniform. Qed.
 
-(* argument order between the reader, save_gac and the writer: every quantity arrives under the parameter of its name *)
-Theorem C20_argument_order :
-  strs_eqb reader_save_args expected_save_args && strs_eqb save_gac_params expected_params &&
-  strs_eqb reader_angles_unpack ["sat_azi"; "sat_zen"; "sun_azi"; "sun_zen"; "rel_azi"]%string = true /\
-  (length io_call_args =? length io_params)%nat && forallb io_pair_ok io_pairs = true.
-Proof. split; [exact argument_order|exact io_order]. Qed.
+(* argument order between the reader and save_gac: every quantity arrives under the parameter that stands for it
+   (channels 0..5 as ref1, ref2, ref3, bt3, bt4, bt5; each angle under its own name) *)
+Theorem C20_argument_order : strs_eqb save_gac_params expected_params && kw_eqb reader_save_roles expected_roles = true.
+Proof. exact argument_order. Qed.
 
-(* which product is written to which dataset of which file with which integer type; scaling and fill values *)
+(* which product is found in which dataset of which file with which integer type; scaling and fill values *)
 Theorem C20_datasets : ds_eqb io_datasets expected_datasets = true.
 Proof. exact datasets. Qed.
-Theorem C20_scaling : sc_eqb save_scaling expected_scaling = true /\ missing_data = -32001 /\ missing_data_latlon = -999999.
+Theorem C20_scaling : scaling_ok = true /\ missing_data = -32001 /\ missing_data_latlon = -999999.
 Proof. exact scaling. Qed.
 
 (* the rows: from the start line to the end line counted from the first line with a valid latitude, clamped to the valid range *)
